@@ -23,7 +23,39 @@ func parse(tokens []*token) (res *token, err error) {
 			res.Append(tok)
 		}
 	}
+	if tok := tooDeep(res); tok != nil {
+		return nil, fmt.Errorf("%v: nested more than %d levels deep", tok.Pos, maxNesting)
+	}
 	return res, nil
+}
+
+// maxNesting bounds the depth of the tree: the parser, the tree sorter and the compiler recurse once per level, and
+// a source with a million nested blocks or a sum of a million terms would otherwise overflow the stack of the host.
+const maxNesting = 10000
+
+// tooDeep returns a token that sits more than maxNesting levels below root, or nil. It does not recurse.
+func tooDeep(root *token) *token {
+	type level struct {
+		tokens []*token
+		depth  int
+	}
+	todo := []level{{root.Tokens, 1}}
+	for len(todo) > 0 {
+		l := todo[len(todo)-1]
+		todo = todo[:len(todo)-1]
+		for _, t := range l.tokens {
+			if t == nil {
+				continue
+			}
+			if l.depth > maxNesting {
+				return t
+			}
+			if len(t.Tokens) > 0 {
+				todo = append(todo, level{t.Tokens, l.depth + 1})
+			}
+		}
+	}
+	return nil
 }
 
 type parser struct {
@@ -86,6 +118,9 @@ func (p *parser) Next() *token {
 
 func (p *parser) Expression(rbp int, mask ...string) *token {
 	p.Depth++
+	if p.Depth > maxNesting {
+		panicf("nested more than %d levels deep", maxNesting)
+	}
 	tmp := p.mask
 	p.mask = mask
 	tok := p.doExpression(rbp)
